@@ -101,4 +101,8 @@ def hostOfModel (s : Str) : Option Str :=
   | none => none
   | some r => let h := pyHostname r.netloc; if h = [] then none else some h
 
+/-- `urlsplit` of the modelled parser as the five components `lru_stems` unpacks -/
+def modelSplit5 (s : Str) : Option Lru.Parts :=
+  (Py.urlsplit s []).map fun r => ⟨r.scheme, r.netloc, r.path, r.query, r.fragment⟩
+
 end Ural.LruVariants
